@@ -17,10 +17,11 @@ Lemma item_ind' (P : item -> Prop) :
   (forall p, P (IStartup p)) ->
   (forall l, P (ILimit l)) ->
   (forall b, P (INoclobber b)) ->
+  (forall b, P (IErrexit b)) ->
   forall i, P i.
 Proof.
-  intros Hc Hg Hd Hsu Hp Hst Hl Hn.
-  fix IH 1. intros [c|k rs body|via rs p body|c|n|p|l|b].
+  intros Hc Hg Hd Hsu Hp Hst Hl Hn He.
+  fix IH 1. intros [c|k rs body|via rs p body|c|n|p|l|b|b].
   - apply Hc.
   - apply Hg. induction body as [|x body IHb]; constructor; [apply IH|exact IHb].
   - apply Hd. induction body as [|x body IHb]; constructor; [apply IH|exact IHb].
@@ -29,6 +30,7 @@ Proof.
   - apply Hst.
   - apply Hl.
   - apply Hn.
+  - apply He.
 Qed.
 
 Definition same_table (s s' : kst) : Prop := k_tab s' = k_tab s /\ k_lim s' = k_lim s.
@@ -77,7 +79,7 @@ Proof.
   - (* a command *)
     intros c sh steps sh' ex [Hs Hb] Ht. cbn [run_item transient] in *.
     destruct (run_cmd (sh_nc sh) (sh_k sh) c) as [[s' inside] ex'] eqn:Er.
-    intros E. injection E as _ <- _. cbn [sh_k].
+    intros E. injection E as _ <- _. cbn [sh_k with_k].
     eapply command_restores_lemma; [exact Hs|exact Hb|exact Er|].
     left. destruct (c_kind c); try reflexivity; discriminate.
   - (* a compound command with a body *)
@@ -88,11 +90,11 @@ Proof.
     pose proof (perform_redirs_wf _ _ _ _ _ _ _ Hwf Hp) as [Hwf1 El].
     assert (k_lim (undo_redirs s1 stack) = k_lim (sh_k sh)) as Hul by exact El.
     destruct ok.
-    + destruct (run_list_with run_item (mkSh s1 (sh_nc sh)) body) as [[ob shb] exb] eqn:Eb.
-      pose proof (run_list_restores body Hbody (mkSh s1 (sh_nc sh)) _ _ _ Hwf1 Ht Eb) as Hsame. cbn [sh_k] in Hsame.
+    + destruct (run_list_with run_item (with_k sh s1) body) as [[ob shb] exb] eqn:Eb.
+      pose proof (run_list_restores body Hbody (with_k sh s1) _ _ _ Hwf1 Ht Eb) as Hsame. cbn [sh_k with_k] in Hsame.
       destruct (undo_same_table _ _ stack Hsame) as [A B].
-      destruct exb; intros E; injection E as _ <- _; cbn [sh_k]; split; congruence.
-    + intros E. injection E as _ <- _. cbn [sh_k]. unfold same_table. rewrite undo_stderr. split; [exact Hundo|].
+      destruct exb; intros E; injection E as _ <- _; cbn [sh_k with_k]; split; congruence.
+    + intros E. injection E as _ <- _. cbn [sh_k with_k]. unfold same_table. rewrite undo_stderr. split; [exact Hundo|].
       cbn. destruct (stderr_write_tab s1) as [_ ->]. exact El.
   - (* the . built-in *)
     intros via rs p body Hbody sh steps sh' ex Hwf Ht. cbn [run_item transient] in *.
@@ -108,16 +110,16 @@ Proof.
     + destruct (open_internal s1 p) as [s2 [fd|]] eqn:Eo;
         apply open_internal_tab in Eo; try exact Hwf1; destruct Eo as [Hwf2 [El2 Ho]].
       * destruct Ho as [Hge [Hfresh [id Et2]]].
-        destruct (run_list_with run_item (mkSh s2 (sh_nc sh)) body) as [[ob shb] exb] eqn:Eb.
-        pose proof (run_list_restores body Hbody (mkSh s2 (sh_nc sh)) _ _ _ Hwf2 Ht Eb) as [A B].
-        cbn [sh_k] in A, B.
+        destruct (run_list_with run_item (with_k sh s2) body) as [[ob shb] exb] eqn:Eb.
+        pose proof (run_list_restores body Hbody (with_k sh s2) _ _ _ Hwf2 Ht Eb) as [A B].
+        cbn [sh_k with_k] in A, B.
         assert (same_table (sh_k sh) (undo_redirs (k_close (sh_k shb) fd) stack)) as Hfin.
         { apply Hback; cbn; [|congruence].
           rewrite A, Et2. apply tdel_tset_fresh; [apply Hwf1|exact Hfresh]. }
         destruct exb; intros E; injection E as _ <- _; exact Hfin.
-      * intros E. injection E as _ <- _. cbn [sh_k].
+      * intros E. injection E as _ <- _. cbn [sh_k with_k].
         destruct (stderr_write_tab s2) as [A B]. apply Hback; congruence.
-    + intros E. injection E as _ <- _. cbn [sh_k].
+    + intros E. injection E as _ <- _. cbn [sh_k with_k].
       destruct (stderr_write_tab s1) as [A B]. apply Hback; assumption.
   - (* a command with a command substitution *)
     intros c sh steps sh' ex Hwf Ht. cbn [run_item transient] in *.
@@ -128,20 +130,21 @@ Proof.
       assert (same_table (sh_k sh) s2) as H2.
       { split; [cbn; rewrite Et1; apply close_both; try assumption; apply Hwf|exact El1]. }
       destruct (run_cmd (sh_nc sh) s2 c) as [[s' inside] ex'] eqn:Er.
-      intros E. injection E as _ <- _. cbn [sh_k].
+      intros E. injection E as _ <- _. cbn [sh_k with_k].
       pose proof (same_table_wf _ _ H2 Hwf) as [Hs2 Hb2].
       eapply same_table_trans; [exact H2|].
       eapply command_restores_lemma; [exact Hs2|exact Hb2|exact Er|].
       left. destruct (c_kind c); try reflexivity; discriminate.
-    + intros E. injection E as _ <- _. cbn [sh_k].
+    + intros E. injection E as _ <- _. cbn [sh_k with_k].
       destruct (stderr_write_tab s1) as [A B]. split; congruence.
   - (* a pipeline *)
     intros n sh steps sh' ex [Hs Hb] _. cbn [run_item].
     destruct (run_pipeline (sh_k sh) n) as [[s' children] ok] eqn:Er.
-    intros E. injection E as _ <- _. cbn [sh_k].
+    intros E. injection E as _ <- _. cbn [sh_k with_k].
     exact (pipeline_restores_lemma _ _ _ _ _ Hs Hb Er).
   - intros p sh steps sh' ex _ Ht. discriminate.
   - intros l sh steps sh' ex _ Ht. discriminate.
+  - intros b sh steps sh' ex _ _ E. cbn in E. injection E as _ <- _. split; reflexivity.
   - intros b sh steps sh' ex _ _ E. cbn in E. injection E as _ <- _. split; reflexivity.
 Qed.
 
